@@ -297,7 +297,7 @@ func (i *yamlInputIter) Next() (any, bool) {
 }
 
 // normalizeYAMLNumbers rewrites the numbers spelled in the YAML way
-// (+1, 1., -.5, 1.e3) to the JSON spelling so that they are printed as JSON.
+// (+1, 1., -.5, 1.e3, 08) to the JSON spelling so that they are printed as JSON.
 func normalizeYAMLNumbers(v any) any {
 	switch v := v.(type) {
 	case json.Number:
@@ -307,7 +307,7 @@ func normalizeYAMLNumbers(v any) any {
 			i = len(s)
 		}
 		m, sign := strings.CutPrefix(s[:i], "-")
-		if strings.HasPrefix(m, ".") {
+		if m = strings.TrimLeft(m, "0"); m == "" || m[0] == '.' {
 			m = "0" + m
 		}
 		m = strings.TrimSuffix(m, ".")
